@@ -210,8 +210,9 @@ where
             });
         };
 
-        assert!(rem.ends_with(')'));
-        let rem = rem.trim_end_matches(')');
+        let Some(rem) = rem.strip_suffix(')') else {
+            return Err(format!("invalid typ clause: missing closing bracket in '{s}'"));
+        };
         let args = rem
             .split(", ")
             .map(Arg::from_str)
